@@ -70,6 +70,11 @@ def main():
             except Exception:
                 print('llvm-cov export failed: ' + r.stdout[-500:])
                 continue
+            anchors_all = set()
+            for l in open(os.path.join(VERIF, 'properties.jsonl')):
+                dd = json.loads(l)
+                if dd['id'] == pid:
+                    anchors_all = set(dd['anchors']['files'])
             never, files, counts = set(), {}, {}
             for f in data['data'][0]['functions']:
                 fn = f['filenames'][0]
@@ -89,6 +94,10 @@ def main():
             print('== %s / unit %s (%d rapidcheck cases)' % (pid, u.name, cases))
             for fn, s in sorted(files.items()):
                 print('   %-28s lines %5d covered %5.1f%%' % (fn, s['count'], s['percent']))
+                if s['percent'] < 100 and fn in anchors_all:
+                    r3 = sh(['llvm-cov', 'show', '-instr-profile=' + prof, exe, os.path.join(core.REPO, fn)])
+                    unc = [int(m.group(1)) for m in re.finditer(r'^\s*(\d+)\|\s*0\|', r3.stdout, re.M)]
+                    print('       not executed: lines ' + ' '.join(str(x) for x in unc[:60]))
             anchors = set()
             for l in open(os.path.join(VERIF, 'properties.jsonl')):
                 dd = json.loads(l)
